@@ -34,9 +34,9 @@ theorem options_tie :
     Generated.effect_WithClientIPResolver = [("route", "nil", "none"), ("route", "non-nil", "resolver"),
       ("router", "nil", "unchanged"), ("router", "non-nil", "resolver")] ∧
     Generated.annotationKeyCheck = "key == nil || !reflect.ValueOf(key).Comparable()" ∧
-    Generated.newRouteInit = [("clientip", "fox.clientip"), ("hbase", "handler"), ("hostSplit", "endHost"),
-      ("ignoreTrailingSlash", "fox.ignoreTrailingSlash"), ("mws", "slices.Clone(fox.mws)"), ("pattern", "pattern"), ("psLen", "n"),
-      ("redirectTrailingSlash", "fox.redirectTrailingSlash")] := by
+    Generated.newRouteInit = [("clientip", "$r.clientip"), ("hbase", "$p1"), ("hostSplit", "$r.parseRoute#1"),
+      ("ignoreTrailingSlash", "$r.ignoreTrailingSlash"), ("mws", "slices.Clone($r.mws)"), ("pattern", "$p0"), ("psLen", "$r.parseRoute#0"),
+      ("redirectTrailingSlash", "$r.redirectTrailingSlash")] := by
   decide
 
 /-! ### the fold -/
